@@ -1,20 +1,53 @@
 (** C17 correspondence entry: job-table op sequences.
-    args: <cur|fix> then ops: A | F <task> | P | W | J <id>
+    args: <cur|fix> then ops: A | E | F <task> | P | W | J <id> | M <n> <spec>*n
     out : per op one field: the table as "<id><+|-|_><R|D>" joined by ","; for P and W prefixed
-          by "rm=<ids>|" resp. "ret=<ids>|" (the jobs removed / returned). *)
+          by "rm=<ids>|" resp. "ret=<ids>|" (the jobs removed / returned); for J and M (`wait %spec...`)
+          prefixed by "s=<status>|". *)
 From Coq Require Import String.
 From BV Require Import Base.Prelude Base.Codec Conc.Jobs Conc.Entry.
 
-Fixpoint dec_jops (fuel : nat) (a : list str) : list op :=
+(** ops of the trace: a table op, or `wait %spec ...` (specs: a job number, "+", "-") *)
+Inductive jop := JO (o : op) | JWait (specs : list str).
+
+Fixpoint take_specs (n : nat) (a : list str) : list str * list str :=
+  match n, a with
+  | O, _ => ([], a)
+  | S n', x :: r => let '(l, rest) := take_specs n' r in (x :: l, rest)
+  | S _, [] => ([], [])
+  end.
+
+Fixpoint dec_jops (fuel : nat) (a : list str) : list jop :=
   match fuel with O => [] | S fuel =>
   match a with
-  | [65%N] :: r => OAdd :: dec_jops fuel r
-  | [70%N] :: t :: r => OFin (dec_nat t) :: dec_jops fuel r
-  | [80%N] :: r => OPoll :: dec_jops fuel r
-  | [87%N] :: r => OWaitAll :: dec_jops fuel r
-  | [74%N] :: i :: r => OWaitJob (dec_nat i) :: dec_jops fuel r
+  | [65%N] :: r => JO OAdd :: dec_jops fuel r
+  | [69%N] :: r => JO OAdd :: dec_jops fuel r          (* E: a job that ends with an error is a job *)
+  | [70%N] :: t :: r => JO (OFin (dec_nat t)) :: dec_jops fuel r
+  | [80%N] :: r => JO OPoll :: dec_jops fuel r
+  | [87%N] :: r => JO OWaitAll :: dec_jops fuel r
+  | [74%N] :: i :: r => JWait [i] :: dec_jops fuel r
+  | [77%N] :: n :: r => let '(sp, rest) := take_specs (dec_nat n) r in JWait sp :: dec_jops fuel rest
   | _ => []
   end end.
+
+(** [resolve_job_spec]: "%+" the current job, "%-" the previous one, "%n" the job numbered n *)
+Definition resolve (m : mgr) (sp : str) : option nat :=
+  match sp with
+  | [43%N] => option_map jid (find is_cur m)
+  | [45%N] => option_map jid (find is_prev m)
+  | _ => let id := dec_nat sp in
+         if existsb (fun j => (jid j =? id)%nat) m then Some id else None
+  end.
+
+(** the `wait` builtin with specs: every spec is resolved and waited for in turn; an unresolved spec
+    makes the status 1 but does not stop the others from being waited for *)
+Fixpoint wait_specs (fixed : bool) (w : world) (st : nat) (specs : list str) : world * nat :=
+  match specs with
+  | [] => (w, st)
+  | sp :: r => match resolve (table w) sp with
+               | Some id => wait_specs fixed (fst (op_step fixed w (OWaitJob id))) st r
+               | None => wait_specs fixed w 1%nat r
+               end
+  end.
 
 Definition show_job (j : job) : str :=
   enc_nat (jid j) ++ (match jann j with ACur => lit "+" | APrev => lit "-" | ANone => lit "_" end)
@@ -22,10 +55,10 @@ Definition show_job (j : job) : str :=
 Definition show_table (m : mgr) : str := join (lit ",") (map show_job m).
 Definition show_ids (l : list job) : str := join (lit ",") (map (fun j => enc_nat (jid j)) l).
 
-Fixpoint jtrace (fixed : bool) (w : world) (os : list op) : list str :=
+Fixpoint jtrace (fixed : bool) (w : world) (os : list jop) : list str :=
   match os with
   | [] => []
-  | o :: r =>
+  | JO o :: r =>
       let '(w', res) := op_step fixed w o in
       let t := show_table (table w') in
       (match o with
@@ -33,6 +66,9 @@ Fixpoint jtrace (fixed : bool) (w : world) (os : list op) : list str :=
        | OWaitAll => lit "ret=" ++ show_ids res ++ lit "|" ++ t
        | _ => t
        end) :: jtrace fixed w' r
+  | JWait specs :: r =>
+      let '(w', st) := wait_specs fixed w 0%nat specs in
+      (lit "s=" ++ enc_nat st ++ lit "|" ++ show_table (table w')) :: jtrace fixed w' r
   end.
 
 Definition entry_c17_jobs (a : list str) : list str :=
